@@ -360,6 +360,15 @@ def extract(repo):
     else:
         shape = ['single-pass']
     g['BACKGROUND_SYNC_SHAPE'] = shape + ['cas' if 'compare_exchange(false, true' in body else 'no-cas']
+    # `IndexStruct::load_in_memory` (reached from `Blob::load_index`: delete into a closed blob, restore of the active blob):
+    # the order of its suspension points and of its assignments to `self` (the repair of E24: every awaited read precedes
+    # the switch of the state, so that a dropped future leaves the on-disk state untouched)
+    ic = read(repo, 'src/blob/index/core.rs')
+    body = fn_body(ic, 'load_in_memory', 'in blob/index/core.rs')
+    body_nc = re.sub(r'//[^\n]*', '', body)
+    evs = [(m.start(), 'await') for m in re.finditer(r'\.await\b', body_nc)] + \
+          [(m.start(), 'set') for m in re.finditer(r'\bself\.\w+\s*=[^=]', body_nc)]
+    g['LOAD_INDEX_SEGMENTS'] = [k for _, k in sorted(evs)]
     # the writer's rotation test
     body = fn_body(sc, 'should_update_active_blob', 'in storage/core.rs')
     m1 = re.search(r'active_blob\.file_size\(\)\s*(>=|>|==|<=|<)\s*config_max_size', body)
